@@ -64,6 +64,56 @@ def norm(text):
 
 
 # ---------------------------------------------------------------------------------------------
+# type catalogue extension: specs with a trailing tuple of further datatype properties (unit, fmtstr, resolutions).
+# The catalogue functions (values, limits, sstr, tojson) only look at the leading fields, so these specs can be used
+# wherever a catalogue spec can - except T.build, which is wrapped by build() below.
+
+EXT_LEAVES = [
+    ('double', 0.0, 10.0, None, None, (('unit', 'K'), ('fmtstr', '%.3f'))),
+    ('double', None, None, None, None, (('unit', '$/min'),)),
+    ('double', -100.0, 100.0, 0.5, 0.01, (('fmtstr', '%.1f'),)),
+    ('scaled', 0.1, 0.0, 10.0, (('unit', 'mm'), ('fmtstr', '%.1f'))),
+    ('scaled', 0.01, -1.0, 1.0, (('unit', '$'), ('absolute_resolution', 0.05), ('relative_resolution', 0.001))),
+]
+
+
+def ext_types():
+    a, b, c, d, e = EXT_LEAVES
+    return EXT_LEAVES + [
+        ('array', a, 0, 3), ('array', e, 1, 2), ('tuple', (d, b)), ('tuple', (c, ('enum', (('a', 1), ('b', 2))))),
+        ('struct', (('a', a), ('b', e)), ('b',)), ('struct', (('a', b),), None),
+        ('array', ('tuple', (d, ('string', 0, 3, False))), 0, 2),
+    ]
+
+
+def build(spec):
+    """T.build extended to the specs above"""
+    from frappy import datatypes as D
+    k = spec[0]
+    if k == 'double' and len(spec) > 5:
+        kw = dict(spec[5])
+        if spec[3] is not None:
+            kw['absolute_resolution'] = spec[3]
+        if spec[4] is not None:
+            kw['relative_resolution'] = spec[4]
+        return D.FloatRange(spec[1], spec[2], **kw)
+    if k == 'scaled' and len(spec) > 4:
+        return D.ScaledInteger(spec[1], spec[2], spec[3], **dict(spec[4]))
+    if k == 'array':
+        return D.ArrayOf(build(spec[1]), spec[2], spec[3])
+    if k == 'tuple':
+        return D.TupleOf(*[build(m) for m in spec[1]])
+    if k == 'struct':
+        opt = None if spec[2] is None else list(spec[2])
+        return D.StructOf(opt, **{n: build(m) for n, m in spec[1]})
+    return T.build(spec)
+
+
+def all_types(tier):
+    return T.all_types(tier, 3) + ext_types()
+
+
+# ---------------------------------------------------------------------------------------------
 # value catalogue extension (derived from the spec only)
 
 def _pow_ints():
@@ -82,25 +132,48 @@ STRINGS = ['None', "it's", '"""', "'''", '\\n', '\t', 'a,b', '(1,)', '{', '#x', 
 UTF8_STRINGS = ['\u2028', '\ud7ff', '\uffff', '\xe4"\\', '\xe9' * 4, '\U0010ffff', '\xb5', '\x80']
 
 
+def deep():
+    return core.TIER == 'thorough'
+
+
+def hostile_strings():
+    """all strings up to length 2 (thorough: 3) over an alphabet of quoting-hostile characters"""
+    alpha = ['"', "'", '\\', '\n', 'a', ' ']
+    if deep():
+        alpha += ['\t', '#', ',', '\r', '{', '(', '%']
+    res = list(alpha)
+    last = list(alpha)
+    for _ in range(2 if deep() else 1):
+        last = [a + b for a in last for b in alpha]
+        res += last
+    return res
+
+
 def extra(spec, entry):
     """further valid candidates of the leaf kinds / containers built from them; complements V.valid(spec, entry)"""
     k = spec[0]
+    win = 2048 if deep() else 16
     if k == 'double':
         lo, hi, _, _ = T.double_limits(spec)
-        vals = [math.nextafter(lo, hi), math.nextafter(hi, lo)]
+        vals = []
+        a, b = lo, hi
+        for _ in range(64 if deep() else 2):
+            a, b = math.nextafter(a, hi), math.nextafter(b, lo)
+            vals += [a, b]
         vals += [f for f in NASTY_FLOATS if lo <= f <= hi]
         vals += [n for n in (3, -7, 2 ** 53 + 1) if lo <= n <= hi]
         return vals
     if k == 'int':
         lo, hi = T.int_limits(spec)
-        return [n for n in [lo + 1, hi - 1] + POW_INTS if lo <= n <= hi]
+        near = [lo + i for i in range(1, win + 1)] + [hi - i for i in range(1, win + 1)] + list(range(-win, win + 1))
+        return [n for n in near + POW_INTS if lo <= n <= hi]
     if k == 'scaled':
         scale, lo, hi = T.scaled_limits(spec)
         nlo, nhi = round(lo / scale), round(hi / scale)
         if nhi - nlo <= 4096:
             ns = list(range(nlo, nhi + 1))
         else:
-            ns = list(range(nlo, nlo + 17)) + list(range(nhi - 16, nhi + 1)) + list(range(-16, 17))
+            ns = list(range(nlo, nlo + win + 1)) + list(range(nhi - win, nhi + 1)) + list(range(-win, win + 1))
             ns += [n for n in POW_INTS + [33333, 12345678, -7654321, 999999, 1000001]]
             ns = [n for n in ns if nlo <= n <= nhi]
         return ns if entry == 'wire' else [n * scale for n in ns]
@@ -108,7 +181,7 @@ def extra(spec, entry):
         return []
     if k == 'string':
         lo, hi, utf8 = spec[1], spec[2], spec[3]
-        pool = STRINGS + (UTF8_STRINGS if utf8 else [])
+        pool = STRINGS + hostile_strings() + (UTF8_STRINGS if utf8 else [])
         if hi is not None:
             pool = pool + ['x' * hi, '"' * hi, '\\' * hi]
         return [s for s in pool if lo <= len(s) and (hi is None or len(s) <= hi)]
@@ -313,6 +386,88 @@ def vdiff(spec, a, b, skipfloat=False):
     return k, 'value-differs'
 
 
+def children(spec, v):
+    """(sub-spec, sub-value) pairs one level below"""
+    k = spec[0]
+    try:
+        if k == 'array':
+            return [(spec[1], e) for e in v]
+        if k == 'tuple':
+            return list(zip(spec[1], v))
+        if k == 'struct':
+            return [(m, v[n]) for n, m in spec[1] if n in v]
+    except Exception:
+        pass
+    return []
+
+
+def shape(spec, v):
+    """input class of a value at the level where a law fails (part of the signature)"""
+    k = spec[0]
+    try:
+        if k == 'tuple':
+            return 'tuple:arity1' if len(spec[1]) == 1 else 'tuple:arityN'
+        if k == 'array':
+            return 'array:nonempty' if len(v) else 'array:empty'
+        if k == 'struct':
+            return 'struct:complete' if all(n in v for n, _ in spec[1]) else 'struct:lacking-optional'
+    except Exception:
+        pass
+    return k
+
+
+def localise(spec, v, fails):
+    """innermost (sub-spec, sub-value) for which the law still fails on its own: fails(Types(sub-spec), sub-value)"""
+    for sub, sv in children(spec, v):
+        try:
+            bad = fails(Types(sub), sv)
+        except Exception:
+            bad = False
+        if bad:
+            return localise(sub, sv, fails)
+    return spec, v
+
+
+def raises(fn, *args):
+    try:
+        fn(*args)
+    except Exception:
+        return True
+    return False
+
+
+def not_strict_json(dt, v):
+    try:
+        e = dt.export_value(v)
+    except Exception:
+        return False
+    return _dumps_fails(e)
+
+
+def _dumps_fails(e):
+    try:
+        json.dumps(e, allow_nan=False)
+    except Exception:
+        return True
+    return False
+
+
+def text_refused(dt, v):
+    try:
+        s = dt.to_string(v)
+    except Exception:
+        return False
+    return raises(dt.from_string, s)
+
+
+def text_unstable(dt, v):
+    try:
+        s = dt.to_string(v)
+        return dt.to_string(dt.from_string(s)) != s
+    except Exception:
+        return False
+
+
 # ---------------------------------------------------------------------------------------------
 
 class Types:
@@ -320,7 +475,7 @@ class Types:
     def __init__(self, spec):
         from frappy.datatypes import get_datatype
         self.spec = spec
-        self.node = T.build(spec)
+        self.node = build(spec)
         self.datainfo = json.loads(json.dumps(self.node.export_datatype()))
         self.client = get_datatype(self.datainfo, 'p')
 
@@ -368,9 +523,13 @@ class Checker:
         tag = 'strict' if isstrict else 'lenient'
         part.outcomes[f'{top}:{side}:{entry}:{tag}:{"accepted" if ok else "refused"}'] += 1
         if not ok and isstrict:
-            self.viol('accept', side, top, f'{entry}:{type(v).__name__}:{norm(v)}', case,
+            if entry == 'wire':
+                sub, sx = localise(spec, x, lambda t, sx: raises(node_import, t.side(side), sx))
+            else:
+                sub, sx = localise(spec, x, lambda t, sx: raises(t.side(side).validate, sx))
+            self.viol('accept', side, shape(sub, sx), f'{entry}:{type(v).__name__}', case,
                       f'{T.sstr(spec)} [{side} datatype] {entry} candidate {x!r} is a valid value but was refused: '
-                      f'{type(v).__name__}: {v}')
+                      f'{type(v).__name__}: {v} (innermost refused part: {T.sstr(sub)} {sx!r})')
         return ok, v
 
     def laws(self, ts, side, v, case):
@@ -387,16 +546,17 @@ class Checker:
         ok, e = self.call(dt.export_value, v)
         if not ok:
             part.outcomes[f'{top}:{side}:export:raised'] += 1
-            self.viol('export', side, top if iscomplete else 'struct-lacking-optional',
-                      f'{type(e).__name__}:{norm(e)}', case,
-                      f'{where}: export_value raised {type(e).__name__}: {e}')
+            sub, sv = localise(spec, v, lambda t, x: raises(t.side(side).export_value, x))
+            self.viol('export', side, shape(sub, sv), type(e).__name__, case,
+                      f'{where}: export_value raised {type(e).__name__}: {e} (innermost failing part: {T.sstr(sub)} {sv!r})')
         else:
             try:
                 text = json.dumps(e, allow_nan=False)
                 e2 = json.loads(text)
             except Exception as ex:
                 text = None
-                self.viol('json', side, top, f'{type(ex).__name__}:{norm(ex)}', case,
+                sub, sv = localise(spec, v, lambda t, x: not_strict_json(t.side(side), x))
+                self.viol('json', side, shape(sub, sv), type(ex).__name__, case,
                           f'{where}: exported {e!r} is not strict JSON: {type(ex).__name__}: {ex}')
             if text is not None:
                 if e2 != e or repr(e2) != repr(e):
@@ -411,7 +571,9 @@ class Checker:
                     ok, v2 = self.call(imp, ts.side(iside), e2)
                     if not ok:
                         part.outcomes[f'{top}:{side}->{iside}:reimport:refused'] += 1
-                        self.viol(f'reimport-{iside}', side, top, f'{type(v2).__name__}:{norm(v2)}', case,
+                        sub, sv = localise(spec, v, lambda t, x: raises(
+                            imp, t.side(iside), json.loads(json.dumps(t.side(side).export_value(x)))))
+                        self.viol(f'reimport-{iside}', side, shape(sub, sv), type(v2).__name__, case,
                                   f'{where}: exported as {text}; importing that on the {iside} datatype raised '
                                   f'{type(v2).__name__}: {v2}')
                         continue
@@ -444,14 +606,16 @@ class Checker:
             ok, v2 = self.call(dt.from_string, s)
             if not ok:
                 part.outcomes[f'{top}:{side}:text:refused'] += 1
-                self.viol('text-accept', side, top, f'{type(v2).__name__}:{norm(v2)}', case,
-                          f'{where}: text form {s!r} is refused by from_string: {type(v2).__name__}: {v2}')
+                sub, sv = localise(spec, v, lambda t, x: text_refused(t.side(side), x))
+                self.viol('text-accept', side, shape(sub, sv), type(v2).__name__, case,
+                          f'{where}: text form {s!r} is refused by from_string: {type(v2).__name__}: {v2} '
+                          f'(innermost failing part: {T.sstr(sub)} {sv!r})')
                 continue
             ok, s2 = self.call(dt.to_string, v2)
             if not ok or s2 != s:
-                d = vdiff(spec, v, v2) or (top, 'differs')
+                sub, sv = localise(spec, v, lambda t, x: text_unstable(t.side(side), x))
                 part.outcomes[f'{top}:{side}:text:unstable'] += 1
-                self.viol('text-stable', side, d[0], 'text-form-changes', case,
+                self.viol('text-stable', side, shape(sub, sv), 'text-form-changes', case,
                           f'{where}: text form {s!r} is read back as {v2!r} whose text form is {s2!r}')
                 continue
             d = vdiff(spec, v, v2, skipfloat=True)
@@ -477,9 +641,8 @@ def check_type(spec, part, only_case=None):
         for entry in ('wire', 'drv'):
             if only_case is not None and (only_case['side'] != side or only_case['entry'] != entry):
                 continue
-            for x in values(spec, entry):
-                if only_case is not None and repr(V.dec(only_case['x'])) != repr(x):
-                    continue
+            # a replay executes the recorded candidate itself, without consulting the catalogue
+            for x in (values(spec, entry) if only_case is None else [V.dec(only_case['x'])]):
                 case = {'spec': T.tojson(spec), 'side': side, 'entry': entry, 'x': V.enc(x)}
                 ok, v = chk.derive(ts, side, entry, x, case)
                 if not ok:
@@ -505,12 +668,13 @@ def shard_fn(specs):
 
 
 def run(ctx):
-    types = T.all_types(ctx.tier, 3)
+    types = all_types(ctx.tier)
     # heavy types (large blobs / full scaled grids) are spread by interleaving
     n = 64
     shards = [types[i::n] for i in range(n)]
     ctx.pmap(shard_fn, [s for s in shards if s], name='roundtrip')
-    ctx.rule = ('enumeration: every type of the catalogue (all leaf kinds with boundary limits, containers to depth 3) x '
+    ctx.rule = ('enumeration: every type of the catalogue (all leaf kinds with boundary limits, containers to depth 3, plus 12 '
+                'types carrying unit / fmtstr / resolution properties) x '
                 '{node datatype, client datatype rebuilt from the JSON datainfo} x every valid candidate of the spec-derived '
                 'value catalogue (limits and their neighbours, all grid points of small scaled ranges / edge and power-of-two '
                 'grid points of large ones, every enum member, every byte value, all base64 paddings, quoting-hostile and '
@@ -523,7 +687,7 @@ def run(ctx):
                         depth_histogram={d: sum(1 for t in types if T.depth(t) == d) for d in (1, 2, 3)})
     ctx.assume('values and limits outside the catalogues are not covered',
                'generalConfig.lazy_number_validation is False (the default)',
-               'fmtstr is the default %g (other format strings are not enumerated here)',
+               'format strings enumerated: %g (default), %.3f, %.1f',
                'what SecopClient.setParameterFromString puts on the wire afterwards is outside this property '
                '(the statement stops at the text form)')
 
